@@ -52,7 +52,16 @@ def make_array(kind, vals):
     """Build the NumPy array exactly (no dataiter logic involved)."""
     import dataiter
     if kind == "float":
-        return np.array([pyval(kind, v) for v in vals], dtype=float)
+        a = np.array([pyval(kind, v) for v in vals], dtype=float)
+        # missing values of one column need not share a bit pattern: every second NaN gets the sign bit
+        # (what `-np.nan` or `inf - inf` produce); all of them are the one missing value
+        k = 0
+        for i, v in enumerate(vals):
+            if v == "nan":
+                if k % 2 == 1:
+                    a[i] = -np.nan
+                k += 1
+        return a
     if kind == "int":
         return np.array(vals, dtype=np.int64)
     if kind == "bool":
@@ -78,7 +87,11 @@ def make_array(kind, vals):
 
 def make_vector(kind, vals):
     import dataiter
-    return make_array(kind, vals).view(dataiter.Vector)
+    v = make_array(kind, vals).view(dataiter.Vector)
+    from harness import warm
+    if warm.ENABLED:
+        warm.vector_through_history(v)
+    return v
 
 
 def is_na_val(kind, v):
@@ -182,6 +195,9 @@ def gen_vals(rng, kind, n, na_frac=None):
         return [na[0]] * n
     if mode < 0.2:
         sub = [p for p in sub if not is_na_val(kind, p)] or [p for p in pool if not is_na_val(kind, p)][:1]
+    elif mode < 0.32 and kind == "float":
+        # twins: equal as values and as keys, different bit patterns
+        sub = list(dict.fromkeys(["-0.0", 0.0, "nan"] + sub[:1]))
     return [rng.choice(sub) for _ in range(n)]
 
 
